@@ -19,7 +19,8 @@
 (* chain: x -> m*x + a (exact rationals; m or a may come from a key).       *)
 (* FactoryReg (generated) supplies HarnessMixins (plugin mixins registered  *)
 (* by the harness, three non-commuting ones per kind), MixinClasses (the    *)
-(* built-in mixins of the live registry), MixOpTab, MixBases, MixIncompat.  *)
+(* built-in mixins of the live registry), MixOpTab, MixProfTab, MixBases,     *)
+(* MixIncompat.                                                             *)
 (***************************************************************************)
 EXTENDS FactoryOps, Rat
 CONSTANTS MaxMix,       \* at most this many mixins in front of the base
@@ -97,18 +98,20 @@ ResolveMixin ==
     /\ UNCHANGED <<kind, toks, nmix, variant, base, keys, vals, front, bpick>>
 
 \* the operation of one mixin under a map G of given raw values
-OpWith(m, G) == LET o == MixOpTab[m.name] IN
+\* tab = MixOpTab: the chain of the probe method the plugin mixins define (built-in mixins do not take part);
+\* tab = MixProfTab: the chain of the temperature `profile` property (the built-in TempScaler scales it)
+OpWith(m, G, tab) == LET o == tab[m.name] IN
     [m |-> IF o.mulkey # "" /\ o.mulkey \in DOMAIN G THEN Transform(G[o.mulkey]).v ELSE o.m0,
      a |-> IF o.addkey # "" /\ o.addkey \in DOMAIN G THEN Transform(G[o.addkey]).v ELSE o.a0]
 TypedOf(n) == Transform(GivenRaw[n])
-OpOf(m) == OpWith(m, GivenRaw)
+OpOf(m, tab) == OpWith(m, GivenRaw, tab)
 \* composite x -> M*x + A of the chain: method resolution enters at the FIRST class and calls down,
 \* so the innermost (last mixin) acts first.  Computed the way the interpreter does: unwind from the end.
-RECURSIVE UnwindG(_, _, _, _)
-UnwindG(ps, i, acc, G) == IF i = 0 THEN acc
-                          ELSE LET o == OpWith(ps[i], G)
-                               IN  UnwindG(ps, i - 1, <<RMul(o.m, acc[1]), RAdd(RMul(o.m, acc[2]), o.a)>>, G)
-Unwind(ps, i, acc) == UnwindG(ps, i, acc, GivenRaw)
+RECURSIVE UnwindG(_, _, _, _, _)
+UnwindG(ps, i, acc, G, tab) == IF i = 0 THEN acc
+                               ELSE LET o == OpWith(ps[i], G, tab)
+                                    IN  UnwindG(ps, i - 1, <<RMul(o.m, acc[1]), RAdd(RMul(o.m, acc[2]), o.a)>>, G, tab)
+Unwind(ps, tab) == UnwindG(ps, Len(ps), <<ROne, RZero>>, GivenRaw, tab)
 Reverse(s) == [i \in 1..Len(s) |-> s[Len(s) + 1 - i]]
 
 Build ==
@@ -117,7 +120,7 @@ Build ==
     /\ LET params == bpick.params \cup UNION {picks[i].params : i \in 1..Len(picks)}
            owners == [i \in 1..Len(picks) |-> picks[i].name] \o <<bpick.name>>
            ownerOf(n) == IF n \in bpick.params THEN bpick.name
-                         ELSE (CHOOSE i \in 1..Len(picks) : n \in picks[i].params) \* key names are unique across classes
+                         ELSE picks[CHOOSE i \in 1..Len(picks) : n \in picks[i].params].name  \* key names are unique across classes
        IN  out' = IF \E n \in GivenNames : n \notin params
                   THEN [err |-> "error", why |-> "unknown key"]
                   ELSE [err |-> "none",
@@ -125,7 +128,8 @@ Build ==
                         initorder |-> Reverse([i \in 1..Len(picks) |-> picks[i].name]),
                         kwargs |-> [c \in {owners[i] : i \in 1..Len(owners)} |->
                                        [n \in {g \in DOMAIN GivenRaw : ownerOf(g) = c} |-> TypedOf(n)]],
-                        coef |-> Unwind(picks, Len(picks), <<ROne, RZero>>)]
+                        coef |-> Unwind(picks, MixOpTab),
+                        pcoef |-> Unwind(picks, MixProfTab)]
     /\ phase' = "done"
     /\ UNCHANGED <<kind, toks, nmix, variant, base, keys, vals, front, picks, bpick>>
 
@@ -141,12 +145,13 @@ OrderedBases ==
           /\ \A i \in 1..Len(toks) - 1 : \E m \in MCands(kind, LowerOf(toks[i])) : m.name = out.bases[i]
           /\ \E c \in Cands(kind, LowerOf(toks[Len(toks)])) : c.name = out.bases[Len(toks)]
 \* declarative reading of "the first mixin is applied last": Eval(<<m1,..,mk>>, x) = op(m1)(Eval(<<m2,..,mk>>, x))
-RECURSIVE EvalChain(_, _)
-EvalChain(ps, x) == IF ps = <<>> THEN x
-                    ELSE LET o == OpOf(Head(ps)) IN RAdd(RMul(o.m, EvalChain(Tail(ps), x)), o.a)
+RECURSIVE EvalChain(_, _, _)
+EvalChain(ps, x, tab) == IF ps = <<>> THEN x
+                         ELSE LET o == OpOf(Head(ps), tab) IN RAdd(RMul(o.m, EvalChain(Tail(ps), x, tab)), o.a)
 FirstAppliedLast ==
     Ok => \A x \in {Q(0), Q(1000), R(1, 4)} :
-              RAdd(RMul(out.coef[1], x), out.coef[2]) = EvalChain(picks, x)
+              /\ RAdd(RMul(out.coef[1], x), out.coef[2]) = EvalChain(picks, x, MixOpTab)
+              /\ RAdd(RMul(out.pcoef[1], x), out.pcoef[2]) = EvalChain(picks, x, MixProfTab)
 ReverseInit ==
     Ok => \A i \in 1..Len(picks) : out.initorder[i] = picks[Len(picks) + 1 - i].name
 KeysReachOwner ==
@@ -159,18 +164,18 @@ InvalidCompositeIsError ==
 UnknownKeyIsErrorMix ==
     (Done /\ variant = "unknownkey") => out.err = "error"
 PlainBuilds == (Done /\ variant = "plain") => out.err = "none"
-CoefFits == Ok => Fits(out.coef[1]) /\ Fits(out.coef[2])
+CoefFits == Ok => Fits(out.coef[1]) /\ Fits(out.coef[2]) /\ Fits(out.pcoef[1]) /\ Fits(out.pcoef[2])
 
 \* the documentation's own numbers tie the operation table to the text
 DocSel(s) == CHOOSE m \in HarnessMixins : m.kind = "temperature" /\ s \in m.kw
-DocEval(sq, x) == LET c == UnwindG([i \in 1..Len(sq) |-> DocSel(sq[i])], Len(sq), <<ROne, RZero>>, <<>>)
+DocEval(sq, x) == LET c == UnwindG([i \in 1..Len(sq) |-> DocSel(sq[i])], Len(sq), <<ROne, RZero>>, <<>>, MixProfTab)
                   IN  RAdd(RMul(c[1], x), c[2])
 ASSUME DocExample == /\ DocEval(<<"doubler", "add50">>, Q(1000)) = Q(2100)
                      /\ DocEval(<<"add50", "doubler">>, Q(1000)) = Q(2050)
 
 \* NON-VACUITY (must be refuted): the order of the mixins would be irrelevant
 OrderIrrelevant ==
-    Ok => Unwind(Reverse(picks), Len(picks), <<ROne, RZero>>) = out.coef
+    Ok => Unwind(Reverse(picks), MixOpTab) = out.coef
 
 Emit == (Export /\ Done) =>
     PrintT(<<"MIX", ToJson([kind |-> kind, toks |-> toks, variant |-> variant, nmix |-> nmix,
@@ -180,5 +185,6 @@ Emit == (Export /\ Done) =>
                             bases |-> IF out.err = "none" THEN out.bases ELSE <<>>,
                             initorder |-> IF out.err = "none" THEN out.initorder ELSE <<>>,
                             kwargs |-> IF out.err = "none" THEN out.kwargs ELSE <<>>,
-                            coef |-> IF out.err = "none" THEN out.coef ELSE <<>>])>>)
+                            coef |-> IF out.err = "none" THEN out.coef ELSE <<>>,
+                            pcoef |-> IF out.err = "none" THEN out.pcoef ELSE <<>>])>>)
 =============================================================================
